@@ -134,7 +134,7 @@ class Interp:
         keys = set(va) | set(vb)
         v = {}
         for k in keys:
-            if isinstance(k, tuple) and k and k[0] == "cmpinfo":
+            if isinstance(k, tuple) and k and k[0] in ("cmpinfo", "lenof"):
                 if va.get(k) == vb.get(k):
                     v[k] = va.get(k)
                 continue
@@ -334,6 +334,9 @@ class Interp:
                     ci = vals.get(("cmpinfo", src_l))
                     if ci is not None:
                         vals[("cmpinfo", l)] = ci
+                    lo = vals.get(("lenof", src_l))
+                    if lo is not None:
+                        vals[("lenof", l)] = lo
             elif k == "cast":
                 kind = rv["kind"]
                 c = self._op_class(body, rv["op"], vals)
@@ -408,6 +411,9 @@ class Interp:
                     c = NN
                 vals[l] = c
                 m = t.callee.method
+                vals.pop(("lenof", l), None)
+                if m == "len" and t.args and t.args[0].place is not None and not [e for e in t.args[0].place.fields() if e != "*"]:
+                    vals[("lenof", l)] = self._root(body, t.args[0].place.local)
                 if m == "is_empty" and t.args and t.args[0].place is not None and not [e for e in t.args[0].place.fields() if e != "*"]:
                     vals[("cmpinfo", l)] = ("is_empty", self._root(body, t.args[0].place.local))
                 elif m in ("eq", "ne", "lt", "gt", "le", "ge") and len(t.args) == 2 and t.callee.trait in ("std::cmp::PartialEq", "std::cmp::PartialOrd"):
@@ -505,6 +511,8 @@ class Interp:
                 if new is None:
                     return None  # infeasible edge
                 vals[l] = new
+                if new in (P, NZ) and vals.get(("lenof", l)) is not None:
+                    nonempty.add(vals[("lenof", l)])
             return (vals, frozenset(nonempty))
         return (vals, frozenset(nonempty))
 
